@@ -916,33 +916,40 @@ Section State.
   (** ** all plugs: [plug_loop] *)
   Variable text : name -> str.
   Let pu : puniverse := {| pu_graph := u; pu_name_text := text |}.
-  Let matches (exps : list item) := plug_matches text (u_sub u) imps exps.
+  Let raw (exps : list item) := plug_matches text (u_sub u) imps exps.
+  Let matches (exps : list item) := plug_pairs text (u_sub u) imps exps.
   Hypothesis imps_nodup : NoDup (map fst imps).
 
   Lemma matches_Mok exps : NoDup (map fst exps) -> Forall (Mok exps) (matches exps).
   Proof.
-    intros ND. apply Forall_forall. intros [e m] I. apply in_plug_matches in I.
+    intros ND. apply Forall_forall. intros [e m] I. apply unique_pairs_incl in I. apply in_plug_matches in I.
     destruct I as (ke & t & Ie & F & S). apply find_target_in in F. destruct F as (Im & _).
     destruct (get_full_in _ _ _ ND Ie) as (xi & Fx & _). destruct (get_full_in _ _ _ imps_nodup Im) as (im & Fi & _).
     exists xi, ke, im, t. auto.
   Qed.
 
-  Lemma matches_fst_incl exps e m : In (e, m) (matches exps) -> In e (map fst exps).
+  Lemma raw_fst_incl exps e m : In (e, m) (raw exps) -> In e (map fst exps).
   Proof.
     intros I. apply in_plug_matches in I. destruct I as (ke & _ & Ie & _). apply (in_map fst) in Ie. exact Ie.
   Qed.
 
-  Lemma matches_nodup exps : NoDup (map fst exps) -> NoDup (map fst (matches exps)).
+  Lemma raw_nodup exps : NoDup (map fst exps) -> NoDup (map fst (raw exps)).
   Proof.
-    unfold matches, plug_matches. induction exps as [|[e ke] r IH]; intros ND; cbn [flat_map map fst]; [constructor|].
+    unfold raw, plug_matches. induction exps as [|[e ke] r IH]; intros ND; cbn [flat_map map fst]; [constructor|].
     cbn [map fst] in ND. inversion ND as [|? ? NI ND']; subst. rewrite map_app. cbn [fst snd].
     assert (T : forall x, In x (map fst (flat_map (fun e0 : name * kid =>
                   match find_target text imps (fst e0) with
                   | Some (m, t) => if u_sub u (snd e0) t then [(fst e0, m)] else []
                   | None => [] end) r)) -> In x (map fst r)).
-    { intros x Ix. apply in_map_iff in Ix. destruct Ix as ([e1 m1] & <- & I1). eapply matches_fst_incl. exact I1. }
+    { intros x Ix. apply in_map_iff in Ix. destruct Ix as ([e1 m1] & <- & I1). eapply raw_fst_incl. exact I1. }
     destruct (find_target text imps e) as [[m t]|]; [|cbn; auto].
     destruct (u_sub u ke t); [|cbn; auto]. cbn. constructor; [|auto]. intros Q. apply NI. apply T. exact Q.
+  Qed.
+
+  Lemma matches_nodup exps : NoDup (map fst exps) -> NoDup (map fst (matches exps)).
+  Proof.
+    intros ND. apply (nodup_fst_of_snd (raw exps)); [apply raw_nodup; exact ND| |apply (proj1 (unique_pairs_spec _))].
+    intros [e m] I. apply unique_pairs_incl. exact I.
   Qed.
 
   Definition PR (p : pkgid) (exps : list item) : Prop :=
@@ -1253,10 +1260,9 @@ Definition plug_result (pu : puniverse) (plugs : list pkgid) (socket : pkgid) (i
 Theorem plug_master pu s plugs socket imps sx pls :
   blank s -> resolved pu s plugs socket imps sx pls -> wf_case pu imps sx pls ->
   tracks_distinct (pu_name_text pu) (map fst imps) ->
-  Forall (fun exps => tracks_distinct (pu_name_text pu) (map fst exps)) pls ->
   plug_result pu plugs socket imps sx pls (plug pu s plugs socket).
 Proof.
-  destruct pu as [u text]. cbn [pu_graph pu_name_text]. intros Hblank Hres Hwf H1 H2.
+  destruct pu as [u text]. cbn [pu_graph pu_name_text]. intros Hblank Hres Hwf H1.
   unfold plug_result. unfold resolved, wf_case in *. cbn [pu_graph pu_name_text] in *.
   set (sup := suppliers text (u_sub u) pls). pose (sock := 0).
     destruct Hblank as (Bn & Bf & Be & Bx).
@@ -1287,17 +1293,17 @@ Proof.
     subst imps. set (imps := pd_imports sd) in *.
     destruct (plug_loop {| pu_graph := u; pu_name_text := text |} s0 0 imps plugs) as [s1 r1] eqn:LP.
     destruct (plug_loop_gen u sock socket sd PD PDsp text NDi plugs pls PRs NDp s0 s1 r1 g0 LP) as (St1 & R1).
-    set (matches := fun exps => plug_matches text (u_sub u) imps exps) in *.
+    set (matches := fun exps => plug_pairs text (u_sub u) imps exps) in *.
     (* offers and pairs coincide *)
     assert (M2O : forall k exps e m, nth_error pls k = Some exps -> In (e, m) (matches exps) ->
                     exists t, In (m, t) imps /\ In (k, e) (sup (m, t))).
-    { intros k exps e m N I. rewrite Forall_forall in H2. pose proof (H2 exps (nth_error_In _ _ N)) as TD.
-      destruct (match_is_offer text (u_sub u) imps exps e m TD I) as (t & Im & O). exists t. split; [exact Im|].
-      apply in_suppliers. eauto. }
+    { intros k exps e m N I. destruct (pair_target_is_import text (u_sub u) imps exps e m I) as (t & Im).
+      exists t. split; [exact Im|]. apply in_suppliers. exists exps. split; [exact N|].
+      apply (pair_iff_offer text (u_sub u) imps exps e m t NDi H1 Im). exact I. }
     assert (O2M : forall k e m t, In (m, t) imps -> In (k, e) (sup (m, t)) ->
                     exists exps, nth_error pls k = Some exps /\ In (e, m) (matches exps)).
     { intros k e m t Im I. apply in_suppliers in I. destruct I as (exps & N & O). exists exps. split; [exact N|].
-      eapply offer_is_match; eauto. }
+      apply (pair_iff_offer text (u_sub u) imps exps e m t NDi H1 Im). exact O. }
     destruct r1 as [o|].
     - (* the loop failed *)
       destruct R1 as (-> & [D|T]).
@@ -1415,7 +1421,6 @@ Section Clauses.
   Variable pls : list (list item).
   Hypothesis Hcase : plug_case pu s plugs socket imps sx pls.
   Hypothesis H1 : socket_tracks_distinct pu imps.
-  Hypothesis H2 : plug_tracks_distinct pu pls.
 
   Let sup := suppliers (pu_name_text pu) (u_sub pu) pls.
   Let res := plug pu s plugs socket.
